@@ -383,6 +383,52 @@ func c01Trigger(sp *spec.Spec, role, dg string) string {
 				}
 			}
 		}
+	case strings.HasSuffix(role, "/service.go") && (has("unknown field") || has("has no field or method")):
+		// a type that uses Reference(base) and inherits (Attribute("name") without type) an attribute whose type reaches
+		// a user type DECLARED LATER: the inherited attribute's type is copied while that later type is still empty,
+		// the service package gets `type X struct{}` (findings/C01-empty-struct-of-later-declared-type.design.go)
+		pos := map[string]int{}
+		for i, t := range sp.Types {
+			pos[t.Name] = i
+		}
+		var reaches func(t *spec.Type, after int, seen map[string]bool) bool
+		reaches = func(t *spec.Type, after int, seen map[string]bool) bool {
+			if t == nil {
+				return false
+			}
+			if t.Kind == spec.Ref {
+				if seen[t.Ref] {
+					return false
+				}
+				seen[t.Ref] = true
+				if pos[t.Ref] > after {
+					return true
+				}
+				if ut := sp.Type(t.Ref); ut != nil {
+					return reaches(ut.Def, after, seen)
+				}
+				return false
+			}
+			for _, a := range t.Attrs {
+				if reaches(a.Type, after, seen) {
+					return true
+				}
+			}
+			if t.Elem != nil && reaches(t.Elem.Type, after, seen) {
+				return true
+			}
+			return t.Key != nil && reaches(t.Key.Type, after, seen)
+		}
+		for i, t := range sp.Types {
+			if t.Def == nil {
+				continue
+			}
+			for _, a := range t.Def.Attrs {
+				if a.Inherit == "reference" && reaches(a.Type, i, map[string]bool{}) {
+					return "reference-inherits-type-declared-later"
+				}
+			}
+		}
 	case strings.HasSuffix(role, "/service.go") && has("field and method with the same name"):
 		// an error type with an attribute whose Go name is Error / ErrorName / GoaErrorName
 		for _, t := range sp.Types {
